@@ -1,0 +1,15 @@
+//go:build verif
+
+// Contracts for /verif (build tag "verif"): //@ comment blocks only.
+package sock
+
+import "net"
+
+var _ *net.TCPListener
+
+// Opening the configured listeners touches the host network, not runtime or configuration state.
+//@ prop C18 C19
+//@ func (c *Config) BuildTCPListeners() (tcpListeners []*net.TCPListener, err error)
+//@   trusted
+//@   ensures len(tcpListeners) < 1<<20
+//@   modifies nothing
